@@ -12,7 +12,7 @@ EXPLANATION = (
     "set constructors / literals / set-returning functions (objects hash by address, strings by PYTHONHASHSEED); every "
     "order-revealing consumption is an instance; an instance is discharged when it only feeds numbering (state / symbol order, "
     "debug parents, message wording) or mutates the loop element itself; an instance that picks one element as *the* result, "
-    "or feeds an action/concatenation sink through a loop-invariant receiver, must be in the triage table with its reason. "
+    "or feeds an action/concatenation sink through a loop-invariant receiver, or leaves the function as an ordered value (list(set) passed to a constructor, returned or stored - symbol collections excepted), must be in the triage table with its reason. "
     "C20.c no ambient inputs (time, random, environment); id() flows only into the debug store and a label name used on both "
     "sides. C20.d the id()-keyed debug store guards only imbue calls, diagnostics and skip-label emission. C20.e no mutated "
     "mutable default arguments.")
